@@ -210,4 +210,37 @@ theorem wrap_calls_le_one (c : Ctx J V) (hl : Linear c) : ∀ (fuel : Nat) (a : 
         · rw [wrap_forward c fuel a v pw he hne, h1, (seqAll_single (wrap fuel c) ax).1]
           exact wrap_calls_le_one c hl fuel ax.1 ax.2
 
+/-! the monitor's decisions against the declarative clauses -/
+
+theorem visitVerdict_none_iff (c : Ctx J V) (a : String) (v : V) : visitVerdict c a v = none ↔ VisitOK c a v := by
+  unfold visitVerdict VisitOK
+  cases hp : paramOf c.mod a with
+  | none => simp
+  | some p =>
+    simp only [Option.some.injEq, exists_eq_left']
+    cases hr : p.dt.revalidate v with
+    | error e => simp
+    | ok w =>
+      simp only [Except.ok.injEq, exists_eq', true_and]
+      rw [← runChecks_cls, Option.map_eq_none_iff, runChecks_none_iff]
+
+theorem mem_pathList_reach (c : Ctx J V) : ∀ (fuel : Nat) (a : String) (v : V) (av : String × V),
+    av ∈ pathList fuel c a v → Reach c a v av.1 av.2
+  | 0, a, v, av, h => by
+    simp only [pathList, List.mem_singleton] at h
+    subst h; exact .here a v
+  | fuel + 1, a, v, av, h => by
+    simp only [pathList, List.mem_cons] at h
+    rcases h with h | h
+    · subst h; exact .here a v
+    · cases hp : paramOf c.mod a with
+      | none => simp [hp] at h
+      | some p =>
+        cases hr : p.dt.revalidate v with
+        | error e => simp [hp, hr] at h
+        | ok w =>
+          simp only [hp, hr, List.mem_flatMap] at h
+          obtain ⟨ax, hax, hm⟩ := h
+          exact .step ⟨p, w, hp, hr, hax⟩ (mem_pathList_reach c fuel ax.1 ax.2 av hm)
+
 end Frappy.Lemmas.Forward
